@@ -1814,6 +1814,15 @@ func (g *tkGen) deploy(hostile bool) (rig.Tx, bool) {
 		tag.Var = "first"
 		if t.Contract != "" {
 			tag.Var = "already-deployed"
+		} else if !hostile && rng.Intn(3) == 0 {
+			// the contract of an issued token gets another ticker than the token's own symbol (the message is checked for
+			// syntax only): the token is found by its minimum unit, and its record keeps its symbol
+			msg.Symbol = "w" + t.Symbol
+			if len(msg.Symbol) > 60 {
+				msg.Symbol = "wrapped"
+			}
+			tag.Var = "first-under-another-ticker"
+			g.run.Count("deploy-of-an-issued-token-under-another-ticker", 1)
 		}
 	}
 	if !hostile {
